@@ -16,6 +16,9 @@ for b in blocks:
         m = re.match(r'obligation failed: (.*?) \((?:sat|unknown|timeout|error|unsat)[^)]*\)', l)
         if m:
             names.append(m.group(1))
+        m = re.match(r'bounded check failed: ([^:]+):', l)
+        if m:
+            names.append('bounded stand-in ' + m.group(1))
     viol = [l for l in lines if l.startswith('VIOLATION')]
     if any('patch does not apply' in l for l in lines):
         print('| `%s` | patch no longer applies to the current tree | – |' % sid)
